@@ -17,12 +17,15 @@ EXPLANATION = (
     "(mean = zeros(p), cov = eye(p), size = n, random_state = the caller's random_state), and no other call in the module resolves "
     "into an ambient source of randomness or time (RNG-SOURCE closed world over all call sites of generate.py); "
     "(b) DRAW-SHAPE - scipy squeezes unit dimensions out of the sample, so the draw must be reshaped to (n, p) before its first "
-    "use; (c) AFFINE-PLACEMENT - inside the segment loop every path stores, exactly once, into rows [lo:hi) of the draw the normal "
-    "form mean_i + sqrt(variance_i) * draw[lo:hi] with the same slice on both sides, (lo, hi) = (L[i], L[i+1]) of "
-    "L = [0] + changepoints + [n] (changing data) or the i-th (start, end) pair (anomalous data), mean_i / variance_i the i-th "
-    "element of the normalised lists, and nothing else is written to the draw; (d) GUARDS - every returning path's branch facts "
-    "entail (Fourier-Motzkin over the integers) len(means) = len(variances) = number of segments, 0 <= changepoint <= n-1, "
-    "0 <= start < end <= n, and every raise reachable in the generators is a ValueError; (e) FRAME - the returned value is "
+    "use; (c) AFFINE-PLACEMENT - on every path through the segment loop the net effect of the writes to the draw (consecutive "
+    "stores to the same rows are composed by substitution) is x[lo:hi] <- mean_i + sqrt(variance_i) * x[lo:hi], reading the same "
+    "rows of the same draw it writes, with (lo, hi) = (L[i], L[i+1]) of L = [0] + changepoints + [n] (changing data) or the i-th "
+    "(start, end) pair (anomalous data), mean_i / variance_i the i-th element of the normalised lists, and nothing else is "
+    "written to the draw; (d) GUARDS - every returning path's branch facts entail (Fourier-Motzkin over the integers) "
+    "len(means) = len(variances) = number of segments, 0 <= changepoint <= n-1, "
+    "0 <= start < end <= n; conversely (GUARD-EXACT) no raise path is satisfiable together with the valid domain (a single or "
+    "per-segment mean / variance, positions inside the data, non-empty anomalies), so consistent arguments are never rejected; "
+    "every raise reachable in the generators is a ValueError; (e) FRAME - the returned value is "
     "pd.DataFrame(draw, index=range(n), columns=<p names>); (f) ALTERNATING - generate_alternating_data delegates to "
     "generate_changing_data with n = segment_length*n_segments, changepoints segment_length*i for i in range(1, n_segments), "
     "its own random_state, and mean/variance vectors that select the changed vector exactly on odd segments with n_affected = "
@@ -149,6 +152,7 @@ def _scenario(ex, fname, kind, pos):
     info = {"n": N, "rs": rs}
     ex.elem_atoms = {single_atom(sym(x)).key for x in ("means_el", "vars_el", "a0", "a1", "cp")}
     ex.unroll_zip = True
+    ex.exact_list_len = True
     if kind == "number":
         means = Num(sym("mean0"), (), "float", pytype="number")
         variances = Num(sym("var0"), (), "float", pytype="number")
@@ -231,6 +235,7 @@ def check_generator(ctx, fname, kind, pos):
             ctx.check(nm == "ValueError", "C18.d GUARDS", f"{key}:raise-kind@{getattr(p.exc.node, 'lineno', 0)}", f.loc(p.exc.node) if p.exc.node is not None else f.loc(), f"inconsistent arguments raise {nm}", expected="ValueError", nontrivial=False)
     for k, p in enumerate(rets):
         check_return_path(ctx, ex, f, fname, key, k, p, info)
+    check_guard_exact(ctx, f, fname, key, paths, info)
 
 
 def _draw_array(p):
@@ -555,7 +560,7 @@ def check_guards(ctx, ex, f, fname, pk, p, info):
         seq = parts[1:]
     names = ("means", "variances")
     for nm, q in zip(names, seq):
-        ln = _list_len(q)
+        ln = _exact_len(ex, p, q)
         ok = ln is not None and (nf_equal(ln, nseg) or (entails(cons, Lin.of(ln - nseg)) and entails(cons, Lin.of(nseg - ln))))
         if not ok and _is_repeat_of(q, nseg):
             ok = True
@@ -577,6 +582,129 @@ def check_guards(ctx, ex, f, fname, pk, p, info):
         ctx.check(ok_lo, rule, f"{pk}:start>=0", f.loc(), "returning paths entail start >= 0" if ok_lo else "a negative anomaly start reaches the draw", expected="ValueError for positions outside the data")
         ctx.check(ok_hi, rule, f"{pk}:end<=n", f.loc(), "returning paths entail end <= n" if ok_hi else "an anomaly end > n reaches the draw", expected="ValueError for positions outside the data")
         ctx.check(ok_ne, rule, f"{pk}:nonempty", f.loc(), "returning paths entail end - start >= 1" if ok_ne else "an empty anomaly (end <= start) reaches the draw", expected="ValueError for empty anomalies")
+
+
+def _dnf(c: Cond, val=True):
+    """disjunction (list) of conjunctions (lists of Lin >= 0) equivalent over the integers to `c is val`; None if not
+    expressible.  any(c)/all(c) are read at the generic element (witness / instance)."""
+    if not val:
+        c = c.neg()
+    t = c.t
+    if t[0] == "const":
+        return [[]] if t[1] else []
+    if t[0] in ("any", "all"):
+        return _dnf(t[1], True)
+    if t[0] == "not":
+        inner = t[1]
+        if inner.t[0] in ("opq",):
+            return None
+        return _dnf(inner, False)
+    if t[0] == "and":
+        a, b = _dnf(t[1]), _dnf(t[2])
+        if a is None or b is None:
+            return None
+        return [x + y for x in a for y in b]
+    if t[0] == "or":
+        a, b = _dnf(t[1]), _dnf(t[2])
+        if a is None or b is None:
+            return None
+        return a + b
+    if t[0] == "cmp":
+        l = Lin.of(t[2])
+        if l is None:
+            return None
+        op = t[1]
+        if op == "<=0":
+            return [[l.neg()]]
+        if op == "<0":
+            n_ = l.neg()
+            return [[Lin(n_.c0 - 1, n_.co)]]
+        if op == "==0":
+            return [[l, l.neg()]]
+        if op == "!=0":
+            n_ = l.neg()
+            return [[Lin(l.c0 - 1, l.co)], [Lin(n_.c0 - 1, n_.co)]]
+    return None
+
+
+def _valid_domain(fname, info):
+    """the arguments the property calls consistent, as a DNF over the scenario's atoms"""
+    n = lift(info["n"])
+    pos = info["positions"]
+
+    def eq(a, b):
+        return [Lin.of(a - b), Lin.of(b - a)]
+
+    def count_cases(lst, nseg):
+        if isinstance(lst, ListV):
+            ln = app("listlen", lst.lid, 0)
+            return [eq(ln, NF.const(1)), eq(ln, nseg)]
+        return [[]]  # a single number is always accepted (used for every segment)
+
+    if fname == "generate_changing_data":
+        if isinstance(pos, ListV):
+            nseg = app("listlen", pos.lid, 0) + 1
+        else:
+            nseg = NF.const(2)
+        cp = sym("cp")
+        elem = [Lin.of(cp), Lin.of(n - 1 - cp)]
+    else:
+        nseg = app("listlen", pos.lid, 0) if isinstance(pos, ListV) else NF.const(1)
+        a0, a1 = sym("a0"), sym("a1")
+        elem = [Lin.of(a0), Lin.of(a1 - a0 - 1), Lin.of(n - a1)]
+    cases = []
+    for cm in count_cases(info["means"], nseg):
+        for cv in count_cases(info["variances"], nseg):
+            cases.append(elem + cm + cv + [Lin.of(n - 1)])
+    return cases
+
+
+def check_guard_exact(ctx, f, fname, key, paths, info):
+    """no raise is reachable for consistent arguments: (path facts) and (valid domain) is unsatisfiable"""
+    from ..affine import satisfiable
+
+    rule = "C18.d GUARDS"
+    valid = _valid_domain(fname, info)
+    for k, p in enumerate(q for q in paths if q.outcome == "raise"):
+        cases = [[]]
+        unknown = []
+        for c, v in p.facts:
+            d = _dnf(c, v)
+            if d is None:
+                unknown.append(c)
+                continue
+            cases = [x + y for x in cases for y in d]
+            if len(cases) > 256:
+                break
+        sat = None
+        for pc in cases:
+            for vc in valid:
+                if satisfiable(pc + vc):
+                    sat = (pc, vc)
+                    break
+            if sat:
+                break
+        line = getattr(p.exc.node, "lineno", 0)
+        loc = f.loc(p.exc.node) if p.exc.node is not None else f.loc()
+        last = p.facts[-1][0] if p.facts else None
+        if sat is None:
+            ctx.holds(rule, f"{key}:exact@{line}#{k}", loc, "this raise is unreachable for consistent arguments (facts and valid domain are jointly unsatisfiable)", nontrivial=False)
+        elif unknown:
+            ctx.undecided(rule, f"{key}:exact@{line}#{k}", loc, f"raise guarded by a condition outside the affine fragment: {unknown[0]!r}"[:200])
+        else:
+            ctx.violation(rule, f"{key}:exact@{line}#{k}", loc, f"consistent arguments are rejected: the guard {last!r} admits a valid argument set"[:260], expected="ValueError only for wrong counts, positions outside [0, n-1] / [0, n], or empty anomalies")
+
+
+def _exact_len(ex, path, q):
+    from ..models import exact_list_len
+
+    saved = ex.facts
+    ex.facts = list(path.facts)
+    try:
+        r = exact_list_len(ex, q) if isinstance(q, (ListV, TupleV)) else None
+    finally:
+        ex.facts = saved
+    return r if r is not None else _list_len(q)
 
 
 def _list_len(q):
